@@ -39,6 +39,7 @@ func c03Spaces(tier string) []pairLeg {
 		add("U3", noVoid(U(3)))
 		add("E1", EditStates(1, 150))
 		add("deep", Deep(false))
+		add("mixed", Mixed())
 	}
 	return legs
 }
@@ -91,11 +92,13 @@ func init() {
 			}
 			return m
 		},
-		Enum:     enumC03,
-		Run:      runC03,
-		Required: func(string) []string { return []string{"accept", "reject: before mismatch", "reject: after mismatch", "reject: remove mismatch", "reject: boundary mismatch", "reject: index beyond array", "reject: path missing", "reject: wrong container kind"} },
-		Assume:   []string{"hunk semantics = Appendix A of DESIGN.md (written from the format documentation)", "strict list-mode diffs only"},
-		Budget:   budget(5*time.Minute, 45*time.Minute),
+		Enum: enumC03,
+		Run:  runC03,
+		Required: func(string) []string {
+			return []string{"accept", "reject: before mismatch", "reject: after mismatch", "reject: remove mismatch", "reject: boundary mismatch", "reject: index beyond array", "reject: path missing", "reject: wrong container kind"}
+		},
+		Assume: []string{"hunk semantics = Appendix A of DESIGN.md (written from the format documentation)", "strict list-mode diffs only"},
+		Budget: budget(5*time.Minute, 45*time.Minute),
 	})
 }
 
